@@ -89,9 +89,27 @@ macro_rules! c09_uvm0_setget {
 c09_uvm0_setget!(c09_uvm0_setget_w0_n4, quick, 40, 0, 4);
 c09_uvm0_setget!(c09_uvm0_setget_w1_n4, quick, 40, 1, 4);
 c09_uvm0_setget!(c09_uvm0_setget_w7_n4, quick, 40, 7, 4);
-c09_uvm0_setget!(c09_uvm0_setget_w8_n4, thorough, 40, 8, 4);
-c09_uvm0_setget!(c09_uvm0_setget_w31_n4, thorough, 40, 31, 4);
-c09_uvm0_setget!(c09_uvm0_setget_w32_n4, thorough, 40, 32, 4);
+c09_uvm0_setget!(c09_uvm0_setget_w2_n4, quick, 40, 2, 4);
+c09_uvm0_setget!(c09_uvm0_setget_w3_n4, quick, 40, 3, 4);
+c09_uvm0_setget!(c09_uvm0_setget_w5_n4, quick, 40, 5, 4);
+c09_uvm0_setget!(c09_uvm0_setget_w8_n4, quick, 40, 8, 4);
+c09_uvm0_setget!(c09_uvm0_setget_w9_n4, quick, 40, 9, 4);
+c09_uvm0_setget!(c09_uvm0_setget_w13_n4, quick, 40, 13, 4);
+c09_uvm0_setget!(c09_uvm0_setget_w15_n4, quick, 40, 15, 4);
+c09_uvm0_setget!(c09_uvm0_setget_w16_n4, quick, 40, 16, 4);
+c09_uvm0_setget!(c09_uvm0_setget_w17_n4, quick, 40, 17, 4);
+c09_uvm0_setget!(c09_uvm0_setget_w23_n4, quick, 40, 23, 4);
+c09_uvm0_setget!(c09_uvm0_setget_w24_n4, quick, 40, 24, 4);
+c09_uvm0_setget!(c09_uvm0_setget_w25_n4, quick, 40, 25, 4);
+c09_uvm0_setget!(c09_uvm0_setget_w27_n4, quick, 40, 27, 4);
+c09_uvm0_setget!(c09_uvm0_setget_w29_n4, quick, 40, 29, 4);
+c09_uvm0_setget!(c09_uvm0_setget_w30_n4, quick, 40, 30, 4);
+c09_uvm0_setget!(c09_uvm0_setget_w31_n4, quick, 40, 31, 4);
+c09_uvm0_setget!(c09_uvm0_setget_w32_n4, quick, 40, 32, 4);
+c09_uvm0_setget!(c09_uvm0_setget_w41_n4, quick, 50, 41, 4);
+c09_uvm0_setget!(c09_uvm0_setget_w48_n4, quick, 50, 48, 4);
+c09_uvm0_setget!(c09_uvm0_setget_w49_n4, quick, 60, 49, 4);
+c09_uvm0_setget!(c09_uvm0_setget_w56_n4, quick, 60, 56, 4);
 c09_uvm0_setget!(c09_uvm0_setget_w33_n4, quick, 40, 33, 4);
 c09_uvm0_setget!(c09_uvm0_setget_w57_n4, quick, 60, 57, 4);
 c09_uvm0_setget!(c09_uvm0_setget_w58_n4, quick, 60, 58, 4);
@@ -586,6 +604,72 @@ c09_intvec_simd!(c09_intvec_simd_u8_n72, thorough, 150, 72);
 c09_intvec_simd!(c09_intvec_simd_u8_n73, thorough, 150, 73);
 
 // ------------------------------------------------------------------------------------------
+// Reads past the end are refused (the packed vectors document a panic)
+// ------------------------------------------------------------------------------------------
+
+fn zipintvec_oob<const N: usize>(min: usize, max: usize) {
+    let mut v = ZipIntVec::new(N, min, max);
+    let val: usize = vany();
+    assume(val >= min && val <= max);
+    v.set(N - 1, val);
+    let idx: usize = vany();
+    assume(idx >= N && idx < N + 40);
+    zcover!(idx == N, "index just past the end");
+    zcover!(idx == N + 39, "opt: index far past the end");
+    let got = v.get(idx);
+    let _ = got;
+    assert!(false, "ZV_NOT_REFUSED: ZipIntVec::get(idx >= size) returned a value");
+}
+macro_rules! c09_zipintvec_oob {
+    ($name:ident, $tier:ident, $unwind:literal, $n:literal, $min:expr, $max:expr) => {
+        zv_harness! {
+            name: $name,
+            prop: "C09",
+            tier: $tier,
+            unwind: $unwind,
+            stubs: [alloc::fmt::format => crate::common::stubs::fmt_format],
+            targets: "ZipIntVec::{new, set, get} / UintVecMin0::get bounds assertion",
+            bounds: "instance = (n, min, max): n slots, offset width fixed by max-min; symbolic index in [n, n+40) (inside and beyond the padded allocation)",
+            oracle: "get(idx) with idx >= size never returns: it is refused by the documented panic (the statement after the call is unreachable for every such idx)",
+            flags: [expect_refusal],
+            body: { zipintvec_oob::<$n>($min, $max) }
+        }
+    };
+}
+c09_zipintvec_oob!(c09_zipintvec_oob_w8, quick, 40, 3, 1000, 1255);
+c09_zipintvec_oob!(c09_zipintvec_oob_w16, quick, 40, 3, 1000, 66535);
+c09_zipintvec_oob!(c09_zipintvec_oob_w7, quick, 40, 3, 1000, 1127);
+c09_zipintvec_oob!(c09_zipintvec_oob_w32, quick, 40, 3, 0, 4294967295);
+
+fn uvm0_oob<const BITS: usize, const N: usize>() {
+    let v = UintVecMin0::new(N, max_of_bits(BITS));
+    let idx: usize = vany();
+    assume(idx >= N && idx < N + 40);
+    zcover!(idx == N, "index just past the end");
+    let got = v.get(idx);
+    let _ = got;
+    assert!(false, "ZV_NOT_REFUSED: UintVecMin0::get(idx >= size) returned a value");
+}
+macro_rules! c09_uvm0_oob {
+    ($name:ident, $tier:ident, $unwind:literal, $bits:literal, $n:literal) => {
+        zv_harness! {
+            name: $name,
+            prop: "C09",
+            tier: $tier,
+            unwind: $unwind,
+            stubs: [alloc::fmt::format => crate::common::stubs::fmt_format],
+            targets: "UintVecMin0::{new, get} bounds assertion",
+            bounds: "instance = (bit width, n): symbolic index in [n, n+40)",
+            oracle: "get(idx) with idx >= size never returns (documented panic)",
+            flags: [expect_refusal],
+            body: { uvm0_oob::<$bits, $n>() }
+        }
+    };
+}
+c09_uvm0_oob!(c09_uvm0_oob_w8_n3, quick, 40, 8, 3);
+c09_uvm0_oob!(c09_uvm0_oob_w13_n3, quick, 40, 13, 3);
+
+// ------------------------------------------------------------------------------------------
 // UintVector
 // ------------------------------------------------------------------------------------------
 
@@ -631,7 +715,51 @@ macro_rules! c09_uintvector_build {
 }
 c09_uintvector_build!(c09_uintvector_build_n4_full, thorough, 40, 4, 4294967295, false);
 c09_uintvector_build!(c09_uintvector_build_n12_w2, thorough, 60, 12, 3, true);
+c09_uintvector_build!(c09_uintvector_build_n12_w8, thorough, 60, 12, 256, true);
 c09_uintvector_build!(c09_uintvector_build_n12_full, thorough, 60, 12, 4294967295, false);
+
+/// Twelve elements (bit packing needs more than 10), ten of them concrete (100..=109) and two symbolic
+/// in [100, 100+SPAN]: the value range max-min - which selects the packed width - is a solver choice.
+fn uintvector_build_mixed<const SPAN: u32>() {
+    let mut src = [100u32, 101, 102, 103, 104, 105, 106, 107, 108, 109, 0, 0];
+    let x: u32 = vany();
+    let y: u32 = vany();
+    assume(x >= 100 && x <= 100 + SPAN && y >= 100 && y <= 100 + SPAN);
+    src[10] = x;
+    src[11] = y;
+    let r = UintVector::build_from(&src);
+    match &r {
+        Ok(v) => {
+            assert!(v.len() == 12, "length not preserved");
+            let mut i = 0;
+            while i < 12 {
+                assert!(v.get(i) == Some(src[i]), "UintVector::get(i) differs from input i");
+                i += 1;
+            }
+            assert!(v.get(12).is_none(), "read past the end not refused");
+            zcover!(x == 100 + SPAN, "largest value of the span stored");
+        }
+        Err(_) => {}
+    }
+    forget(r);
+}
+macro_rules! c09_uintvector_mixed {
+    ($name:ident, $tier:ident, $unwind:literal, $span:literal) => {
+        zv_harness! {
+            name: $name,
+            prop: "C09",
+            tier: $tier,
+            unwind: $unwind,
+            stubs: [alloc::fmt::format => crate::common::stubs::fmt_format],
+            targets: "UintVector::build_from (analyze_optimal_strategy, min-max bit packing: width from the value range; write_bits_fast), get, len",
+            bounds: "12 elements: 100..=109 concrete plus two symbolic values in [100, 100+SPAN] (instance arg), so every value range from 9 to SPAN - powers of two and their neighbours included - is covered",
+            oracle: "build_from Ok or Err; if Ok: len()==12, get(i)==Some(input[i]) for all i, get(12)==None",
+            body: { uintvector_build_mixed::<$span>() }
+        }
+    };
+}
+c09_uintvector_mixed!(c09_uintvector_mixed_span40, quick, 20, 40);
+c09_uintvector_mixed!(c09_uintvector_mixed_span300, thorough, 20, 300);
 
 zv_harness! {
     name: c09_uintvector_push_n5,
